@@ -542,7 +542,7 @@ func SpecPred(p *core.Prog, r *core.Report) {
 		{"(*SpecValidator).checkUniqueParams", "duplicateParamNameMsg", []string{`^found\(`}, []string{`^!found\(`}, "a (location, name) pair already seen for this operation"},
 		{"(*SpecValidator).validatePathParamPresence", "noParameterInPathMsg", []string{`^!flag\{.* == .*\}$`}, nil, "a placeholder of the path has no declared path parameter"},
 		{"(*SpecValidator).validatePathParamPresence", "pathParamNotInPathMsg", []string{`^!flag\{.* == .*\}$`}, nil, "a declared path parameter has no placeholder in the path"},
-		{"(*SpecValidator).validateRequiredProperties", "requiredButNotDefinedMsg", []string{`^!flag\{found\(.*Properties\[`, `^!flag\{.*MatchString`, `^!flag\{.*AdditionalProperties`}, nil, "a required property is defined by properties, patternProperties or additionalProperties"},
+		{"(*SpecValidator).validateRequiredProperties", "requiredButNotDefinedMsg", []string{`^!flag\{found\(.*Properties\[`, `^!flag\{.*MatchString`, `^!flag\{.*AdditionalProperties\.Allows`, `^!flag\{.*\|[^|]*\(recv,[^|]*AdditionalProperties\.Schema\)`}, nil, "a required property is defined by properties, patternProperties or additionalProperties (allowed without a schema, or — recursively — defined by the schema of the additional properties)"},
 		{"(*SpecValidator).validateItems", "arrayInParamRequiresItemsMsg", []string{`TypeName\(.*\) == "array"$`, `ItemsTypeName\(.*\) == ""$`}, nil, "an array parameter declares its items"},
 		{"(*SpecValidator).validateItems", "arrayInHeaderRequiresItemsMsg", []string{`TypeName\(.*\) == "array"$`, `ItemsTypeName\(.*\) == ""$`}, nil, "an array header declares its items"},
 		{"(*SpecValidator).validateSchemaItems", "arrayRequiresItemsMsg", []string{`^Contains\(.*"array"\)$`}, []string{`^!Contains\(.*"array"\)$`}, "an array schema declares its items"},
